@@ -104,8 +104,25 @@ def op_scan(tok):
     return "iv " + " ".join("%d,%d" % (ts(x.start) // G, ts(x.end) // G) for x in r)
 
 
+def op_scanw(tok):
+    """the same scan for a window whose ends lie inside slots: [s*G + so, e*G + eo)"""
+    from scriptplan.utils.time import TimeInterval
+    _impl, pat, s, so, e, eo, m = tok
+    n = len(pat)
+    G = 3600
+    sb = _board(0, (n - 1) * G, G)
+    assert sb.size == n, (sb.size, n)
+    for i, c in enumerate(pat):
+        sb[i] = c == "1"
+    iv = TimeInterval(dt(int(s) * G + int(so)), dt(int(e) * G + int(eo)))
+    r = sb.collectIntervals(iv, int(m) * G, lambda v: bool(v))
+    if any(ts(x.start) % G or ts(x.end) % G for x in r):
+        return "iv offgrid " + " ".join("%d,%d" % (ts(x.start), ts(x.end)) for x in r)
+    return "iv " + " ".join("%d,%d" % (ts(x.start) // G, ts(x.end) // G) for x in r)
+
+
 OPS = {"civil": op_civil, "idx2t": op_idx2t, "t2idx": op_t2idx, "size": op_size,
-       "pidx2t": op_pidx2t, "pt2idx": op_pt2idx, "scan": op_scan}
+       "pidx2t": op_pidx2t, "pt2idx": op_pt2idx, "scan": op_scan, "scanw": op_scanw}
 JOPS = {}
 
 
